@@ -111,7 +111,7 @@ bool kind_relevant(const std::string& p, VKind k) {
     if (p == "C12") return in({V_OWNER_CHANGED, V_READ_DEAD_SOURCE, V_STORE_INPUT_TEXT, V_STORE_CONST_ARG, V_CONST_ARG_CHANGED, V_TOUCH_FREED});
     if (p == "C13") return in({V_BYPASS, V_FOREIGN_FREE, V_BAD_FREE, V_DOUBLE_FREE, V_LEAK_AFTER_RELEASE, V_LEAK_AT_END, V_LEAK_AFTER_FAILURE, V_ALLOC_BEFORE_REJECT, V_TRAP});
     if (p == "C14") return in({V_WRONG_RC, V_LEAK_AFTER_FAILURE, V_LEAK_AT_END, V_LEAK_AFTER_RELEASE, V_DOUBLE_FREE, V_BAD_FREE, V_FOREIGN_FREE, V_TOUCH_FREED, V_CONST_ARG_CHANGED, V_STORE_CONST_ARG, V_NO_RECOVERY, V_HEAP_OVERFLOW, V_STORE_INPUT_TEXT});
-    if (p == "C15") return in({V_ALLOC_MODEL, V_TRAP, V_DOUBLE_FREE, V_BAD_FREE, V_FOREIGN_FREE, V_TOUCH_FREED, V_HEAP_OVERFLOW, V_LEAK_AT_END, V_WRONG_RC});
+    if (p == "C15") return in({V_ALLOC_MODEL, V_TRAP, V_BYPASS, V_DOUBLE_FREE, V_BAD_FREE, V_FOREIGN_FREE, V_TOUCH_FREED, V_HEAP_OVERFLOW, V_LEAK_AT_END, V_WRONG_RC});
     if (p == "C17") return in({V_QUERY_ROUNDTRIP, V_QUERY_CHARS, V_SIZE_CONTRACT, V_STORE_BEYOND_CAP, V_INTMAX, V_HEAP_OVERFLOW, V_WRONG_RC, V_LEAK_AFTER_FAILURE, V_LEAK_AT_END, V_LEAK_AFTER_RELEASE, V_DOUBLE_FREE, V_BAD_FREE, V_NO_RECOVERY, V_CONST_ARG_CHANGED, V_STORE_CONST_ARG, V_READ_OUT_OF_WINDOW});
     if (p == "C20") return in({V_DATA_RACE, V_STORE_STATIC, V_STORE_CONST_ARG, V_CONST_ARG_CHANGED, V_RESULT_DIFFERS, V_LEAK_AT_END, V_DOUBLE_FREE, V_BAD_FREE, V_TOUCH_FREED, V_STORE_INPUT_TEXT});
     return false;
@@ -224,7 +224,8 @@ Plan generate_plan(const std::string& prop, unsigned long long vseed, unsigned l
         gen::TextCfg tc = hc.text; tc.mutate_per1024 = r.pick(std::vector<int>{0, 200, 400, 700}); if (!tc.long_mode) tc.max_len = thorough ? 64 : 40;
         Op o; o.kind = OP_PARSE; o.a = 0;
         if (r.chance(200)) {   // IP-literal soup
-            static const std::vector<std::string> parts = {":", "::", "1", "ffff", "0", ".", "1.2.3.4", "255", "256", "v1.", "a", "]", "[", "%", "12345", "44.1", "::44.1", "1:2:3:4:5:6:7:8", "00", "."};
+            static const std::vector<std::string> parts = {":", "::", "1", "ffff", "0", ".", "1.2.3.4", "255", "256", "v1.", "a", "]", "[", "%", "12345", "44.1", "::44.1", "1:2:3:4:5:6:7:8", "00", ".",
+                "ABCDE", "fffff", "FFFF", "AbCd", "1234", "0255", "1.2.3.1234", "F", "aBcDe1", "9", "1:2:3:4:5:6:", "1:2:3:4:5:6:7:", "::1:2:3:4:5:6:7", "1.2.3.4.5", "1..2", "v", "V7.", "vG.x", "1234.1.1.1", "25.25.25.255"};
             std::string t = r.chance(500) ? "//[" : "s://u@[";
             int n = r.range(1, 7); for (int i = 0; i < n; i++) t += r.pick(parts);
             if (r.chance(800)) t += "]";
@@ -391,6 +392,7 @@ Plan generate_plan(const std::string& prop, unsigned long long vseed, unsigned l
         p.sched_param = p.sched_policy == 2 ? r.range(1, 3) : p.sched_policy == 3 ? r.pick(std::vector<int>{2, 8, 30, 100}) : 0;
     } else if (prop == "C15") {
         p.mgrs = {MK_COMPLETED}; p.mgr_mask = {0};
+        if (r.chance(400)) { p.mgrs.push_back(MK_COMPLETED); p.mgr_mask.push_back(0); }   // two completed managers over different backends, alive together
         static const std::vector<unsigned long long> sizes = {0, 1, 2, 7, 8, 9, 15, 16, 17, 63, 64, 100, 4096, 4097, 9000, 70000, ~0ull, ~0ull - 7, ~0ull - 8, ~0ull - 9, (~0ull >> 1) + 1, (~0ull >> 1), 1ull << 32, (1ull << 32) + 1, 3, 5};
         int n = r.range(1, thorough ? 40 : 24);
         bool faults = r.chance(500);
